@@ -961,3 +961,123 @@ def assume(an, pred):
             if not (labs & set(keep)):
                 removed.add((n, tb))
     return Analysis(an.fn, removed)
+
+
+def payload_base(e, depth=0):
+    """(base, n): e is the n-fold success payload of `base` (n >= 0), looking
+    through `?`, ok_or/map_err and Ok/Some re-wrapping."""
+    e = unmut_shallow(e)
+    if depth > 20:
+        return e, 0
+    if e.k == "vfield" and e.a[1] in ("Ok", "Some", "Continue") and str(e.a[2]) == "0":
+        inner = unmut_shallow(e.a[0])
+        # containers that forward their payload
+        for _ in range(10):
+            if inner.k == "call" and inner.a[0].trait == "std::ops::Try" and inner.a[0].name == "branch" and inner.a[1]:
+                inner = unmut_shallow(inner.a[1][0])
+                continue
+            if inner.k == "call" and inner.a[0].name in PAYLOAD_PRESERVING and inner.a[1]:
+                inner = unmut_shallow(inner.a[1][0])
+                continue
+            break
+        if inner.k == "agg" and inner.a[0] in OK_VARIANTS and "0" in inner.a[1]:
+            return payload_base(inner.a[1]["0"], depth + 1)
+        b, n = payload_base(inner, depth + 1)
+        return b, n + 1
+    return e, 0
+
+
+VARIANT_OF_AGG = {
+    "std::result::Result::Ok": "Ok", "std::result::Result::Err": "Err",
+    "std::option::Option::Some": "Some", "std::option::Option::None": "None",
+    "std::ops::ControlFlow::Continue": "Continue", "std::ops::ControlFlow::Break": "Break",
+}
+BRANCH_OF = {"Ok": "Continue", "Some": "Continue", "Err": "Break", "None": "Break"}
+
+
+def feasible_reach(an, start, env=None, limit=4000):
+    """Blocks reachable from `start` when the variant of locals that were just
+    built as Ok/Err/Some/None (or derived from such by move, `?`) is tracked:
+    a switch on the discriminant of a local whose variant is known follows
+    only the matching edge.  Everything unknown is followed both ways."""
+    fn = an.fn
+    cfg = an.cfg
+    seen = set()
+    out = set()
+    stack = [(start, dict(env or {}))]
+    steps = 0
+    while stack and steps < limit:
+        steps += 1
+        bb, e = stack.pop()
+        if bb not in cfg.succ:
+            continue
+        key = (bb, frozenset(e.items()))
+        if key in seen:
+            continue
+        seen.add(key)
+        out.add(bb)
+        e = dict(e)
+        b = fn.blocks[bb]
+        for s in b.stmts:
+            if s.kind != "assign" or not s.place.is_local():
+                if s.kind == "assign" and s.place.local in e:
+                    e.pop(s.place.local, None)
+                continue
+            L = s.place.local
+            rv = s.rv
+            if rv.kind == "aggregate" and rv.j.get("agg") == "adt":
+                v = VARIANT_OF_AGG.get("%s::%s" % (rv.j["adt"], rv.j["variant"]))
+                if v:
+                    e[L] = v
+                else:
+                    e.pop(L, None)
+            elif rv.kind == "use" and rv.ops[0].kind in ("copy", "move") and rv.ops[0].place.is_local() and rv.ops[0].place.local in e:
+                e[L] = e[rv.ops[0].place.local]
+            elif rv.kind == "discr" and rv.place.is_local() and rv.place.local in e and rv.j.get("variants"):
+                val = None
+                for vv, nm in rv.j["variants"]:
+                    if nm == e[rv.place.local]:
+                        val = vv
+                if val is not None:
+                    e[("d", L)] = val
+                else:
+                    e.pop(("d", L), None)
+                e.pop(L, None)
+            else:
+                e.pop(L, None)
+                e.pop(("d", L), None)
+        t = b.term
+        if t.kind == "call":
+            L = t.dest.local if (t.dest is not None and t.dest.is_local()) else None
+            if L is not None:
+                e.pop(L, None)
+                c = t.callee
+                if c is not None and c.trait == "std::ops::Try" and c.name == "branch" and t.args and t.args[0].kind in ("copy", "move") and t.args[0].place.is_local():
+                    src = e.get(t.args[0].place.local)
+                    if src in BRANCH_OF:
+                        e[L] = BRANCH_OF[src]
+                elif c is not None and c.name == "from_residual":
+                    e[L] = "Err"
+            for s2 in cfg.succ[bb]:
+                stack.append((s2, e))
+        elif t.kind == "switch":
+            d = t.discr
+            val = None
+            if d.kind in ("copy", "move") and d.place.is_local():
+                val = e.get(("d", d.place.local))
+            if val is not None:
+                tgt = None
+                for vv, tb in t.targets:
+                    if vv == val:
+                        tgt = tb
+                if tgt is None:
+                    tgt = t.otherwise
+                if tgt in cfg.succ and (bb, tgt) not in cfg.removed:
+                    stack.append((tgt, e))
+            else:
+                for s2 in cfg.succ[bb]:
+                    stack.append((s2, e))
+        else:
+            for s2 in cfg.succ[bb]:
+                stack.append((s2, e))
+    return out
